@@ -14,8 +14,8 @@
    ledger_sum RO T net (cols st) (occs st) x
       = sum over periods t and stations s with (session x connected to s in t) of
         rates[s][t] * V_s / 1000 * (T / 60). *)
-From Coq Require Import ZArith Reals Lra List Bool.
-From ACN Require Import Base.Num Base.NumR Gen.Battery_R Model.Ledger Model.LedgerR Proofs.Ledger.
+From Coq Require Import ZArith QArith Reals Lra List Bool.
+From ACN Require Import Base.Num Base.NumR Gen.Battery_R Model.Ledger Model.LedgerR Model.LedgerQ Proofs.Ledger.
 Import ListNotations.
 Open Scope R_scope.
 
@@ -134,3 +134,15 @@ Example C02_example :
              /\ occupancy_by_period st = [[Some 7%Z]; [None]]
              /\ Rsum (map e_energy (all_evs st)) = 832 / 1000.
 Proof. exact ledger_example. Qed.
+
+(* the executable twin (what the correspondence check runs) on a run with all three battery classes,
+   two voltages, back-to-back reuse of station 0 and a pilot addressed to a vacant station:
+   the ledger equalities hold EXACTLY (rational arithmetic, no tolerance) and energy is delivered *)
+Example C02_exec_example :
+  ledger_exact_Q 5%Q [mk_stn 0%Z 208%Q (fun _ => true); mk_stn 1%Z 240%Q (fun _ => true)]
+    [Plugin 0%Z 1%Z (mk_batt BL2cont 50 45 0 (66 # 10) 0 (8 # 10))%Q;
+     Plugin 1%Z 2%Z (mk_batt BL2step 24 12 0 (72 # 10) (1 # 10) (1 # 2))%Q;
+     Step [16; 32]%Q [(0, 0); (3 # 10, 3 # 10)]%Q; Step [16; 0]%Q [];
+     Unplug 0%Z 1%Z; Plugin 0%Z 3%Z (mk_batt BIdeal 10 (99 # 10) 0 50 0 0)%Q;
+     Step [32; 8]%Q []; Unplug 1%Z 2%Z; Step [8; 32]%Q []] = true.
+Proof. vm_compute. reflexivity. Qed.
